@@ -11,22 +11,27 @@ EXTENDS Naturals, Sequences, FiniteSets, TLC, Json
    symbolic call  - the body does not run; a condition is returned; during evaluation the body runs once per
                     candidate binding of the variables, each parameter bound to the value of the argument
                     written in that position, and contributes exactly the truth value of the concrete call.
- The body is  (p1 + 2*p2 + 3*p3) % 3 # 0  (absent parameters count 0); variables range over 1..3.
+ The body is  (p1 + 2*p2 + 3*p3) % 3 # 0  (absent parameters count 0); variables range over 0..2 (0 is falsy).
  Layer I is merge_args_and_kwargs: OffByOne = TRUE skips the first parameter name (the behaviour of
  @symbolic_function before the fix) and is refuted by TLC.
  ***************************************************************************************************)
 CONSTANTS OffByOne
-VARIABLES n, ndef, np, kw, vars
-st == <<n, ndef, np, kw, vars>>
+VARIABLES n, ndef, np, kw, vars, style
+st == <<n, ndef, np, kw, vars, style>>
 Default(i) == i + 3                      \* default value of parameter i
 Concrete(i) == i                         \* the concrete value written for parameter i
-Dom == 1..3
+Dom == 0..2                               \* candidate values of a query variable; 0 is a falsy value
 Supplied == (1..np) \cup kw
 WellFormed == /\ n \in 1..3 /\ ndef \in 0..n /\ np \in 0..n
               /\ kw \subseteq ((np + 1)..n)
               /\ \A i \in 1..(n - ndef) : i \in Supplied          \* required parameters are passed
               /\ vars \subseteq Supplied
-Init == /\ n \in 1..3 /\ ndef \in 0..3 /\ np \in 0..3 /\ kw \in SUBSET (1..3) /\ vars \in SUBSET (1..3) /\ WellFormed
+              \* signature styles beyond (arity, defaults), concrete calls only: all parameters positional-only  def f(p1.., /),
+              \* or one parameter and a var-positional rest  def f(p1, *rest, **options)  called with n positional arguments
+              /\ style = "posonly" => kw = {} /\ vars = {}
+              /\ style = "varargs" => ndef = 0 /\ kw = {} /\ np = n /\ vars = {}
+Init == /\ n \in 1..3 /\ ndef \in 0..3 /\ np \in 0..3 /\ kw \in SUBSET (1..3) /\ vars \in SUBSET (1..3)
+        /\ style \in {"plain", "posonly", "varargs"} /\ WellFormed
 Next == FALSE /\ UNCHANGED st
 Spec == Init /\ [][Next]_st
 Symbolic == vars # {}
@@ -43,5 +48,5 @@ Expected == [symbolic |-> Symbolic,
              concrete_result |-> IF Symbolic THEN FALSE ELSE Body(<<>>),
              calls_at_evaluation |-> IF Symbolic THEN { [a |-> [i \in 1..n |-> ParamVal(i, g)], r |-> Body(g)] : g \in Asgs } ELSE {},
              solutions |-> IF Symbolic THEN { g \in Asgs : Body(g) } ELSE {}]
-Emit == PrintT(ToJson([n |-> n, ndef |-> ndef, np |-> np, kw |-> kw, vars |-> vars, exp |-> Expected]))
+Emit == PrintT(ToJson([n |-> n, ndef |-> ndef, np |-> np, kw |-> kw, vars |-> vars, style |-> style, exp |-> Expected]))
 ====
